@@ -219,6 +219,9 @@ func (i *input) lex() {
 					Text:      content.String(),
 				})
 			}
+			// The string is consumed up to and including its closing
+			// quote; don't skip the rune that follows it.
+			continue
 		default:
 			startLine := i.pos.line
 			var comment bytes.Buffer
@@ -250,6 +253,9 @@ func (i *input) lex() {
 					EndLine:   i.pos.line,
 					Text:      comment.String(),
 				})
+				// The comment is consumed up to and including its end
+				// marker; don't skip the rune that follows it.
+				continue
 			} else if i.singleLineComment() { // Single line comment
 				for {
 					if i.eof() {
